@@ -37,6 +37,7 @@ type c17Plan struct {
 	// clock anomaly: from FreezeAt virtual ms after start on, the log's clock (timeNowUnixMilli) stops advancing
 	// (FreezeBack = 0) or has stepped back by FreezeBack ms and stands still there
 	FreezeAt, FreezeBack int
+	Slow                 int // ms taken by the slow operation of the plan's simSlow directive (0: none)
 }
 
 func c17GenPlan(t *rapid.T) c17Plan {
@@ -72,6 +73,12 @@ func c17GenPlan(t *rapid.T) c17Plan {
 	}
 	if rapid.IntRange(0, 3).Draw(t, "readOnly") == 0 {
 		p.ReadOnly = 100 + 250*rapid.IntRange(1, 20).Draw(t, "readOnlyAt") + 30
+	}
+	if rapid.IntRange(0, 3).Draw(t, "slowRound") == 1 {
+		// one storage or lock operation of some round takes longer than the sequencing period (but less than the round's deadline)
+		p.Slow = rapid.SampledFrom([]int{1200, 2500, 2500, 5000, 9000}).Draw(t, "slowMs")
+		p.Faults = append(p.Faults, simFault{Class: rapid.SampledFrom([]string{"lock", "staging", "checkpoint", "tile"}).Draw(t, "slowClass"),
+			Ordinal: rapid.IntRange(0, 3).Draw(t, "slowOrd"), Mode: simSlow, Mask: uint64(p.Slow)})
 	}
 	if rapid.IntRange(0, 4).Draw(t, "clockAnomaly") == 1 {
 		p.FreezeAt = 100 + 250*rapid.IntRange(1, 20).Draw(t, "freezeAt") + 60
@@ -111,6 +118,8 @@ func c17Run(t *testing.T, plan c17Plan, dir string, st map[string]int, desc *[]s
 		}
 	}
 	synctest.Test(t, func(t *testing.T) {
+		simVirtualTime = true
+		defer func() { simVirtualTime = false }()
 		s := newSimSys(t, dir)
 		s.strictModel = false
 		s.pool = plan.PoolSize
@@ -202,7 +211,7 @@ func c17Run(t *testing.T, plan c17Plan, dir string, st map[string]int, desc *[]s
 				fail("a checkpoint was signed after the sequencer stopped (%s)", where)
 			}
 			// past the read-only date the next tick must stop the sequencer for good
-			if plan.ReadOnly > 0 && plan.FreezeAt == 0 && !stopSeen && time.Since(start) > time.Duration(plan.ReadOnly+10+1000+5)*time.Millisecond {
+			if plan.ReadOnly > 0 && plan.FreezeAt == 0 && !stopSeen && time.Since(start) > time.Duration(plan.ReadOnly+10+1000+5+plan.Slow+1000)*time.Millisecond {
 				fail("the log is %v past its read-only date but the sequencer is still running (%s)", time.Since(start)-time.Duration(plan.ReadOnly+10)*time.Millisecond, where)
 			}
 			for _, w := range waiters {
@@ -251,11 +260,27 @@ func c17Run(t *testing.T, plan c17Plan, dir string, st map[string]int, desc *[]s
 			now := time.Since(start).Milliseconds()
 			// expected admission decision
 			exp := ""
+			// a pool taken for a round that is still under way (a slow storage operation): its entries answer duplicates
+			var seqPool *pool
+			seqEvicted := false
+			for pl, pm := range models {
+				if pl != cur && !poolDone(pl) {
+					if pm.keys[key] {
+						seqPool = pl
+					} else if pm.evicted[key] {
+						seqEvicted = true // evicted from the pool that is being sequenced: its (refusing) wait function is still registered there
+					}
+				}
+			}
 			switch {
 			case stopSeen || cur.err != nil || poolDone(cur):
 				exp = "closed"
 			case m.keys[key]:
 				exp = "pool"
+			case seqPool != nil:
+				exp = "pool-in-sequencing"
+			case seqEvicted && !m.evicted[key]:
+				exp = "refused-evicted-dup"
 			case m.evicted[key]:
 				// a resubmission of an entry evicted from this very pool: refused with a retry-later answer either way
 				exp = "refused-evicted-dup"
@@ -329,6 +354,12 @@ func c17Run(t *testing.T, plan c17Plan, dir string, st map[string]int, desc *[]s
 				if done, _, err := w.outcome(); !done || err != errPoolFull {
 					fail("rejected submission did not get the pool-full error immediately (done=%v err=%v)", done, err)
 				}
+			case "pool-in-sequencing":
+				st["duplicates-of-entries-being-sequenced"]++
+				if src != "pool" {
+					fail("duplicate of an entry that is being sequenced right now got source %q", src)
+				}
+				w.pool = seqPool
 			case "pool":
 				if src != "pool" {
 					fail("duplicate of a pending entry got source %q", src)
@@ -398,6 +429,13 @@ func c17Run(t *testing.T, plan c17Plan, dir string, st map[string]int, desc *[]s
 			quiesce("after final cancel")
 		}
 		time.Sleep(3 * time.Second)
+		// a round with a slow operation may still be under way: it ends within the round's own deadline
+		for i := 0; i < 40 && !stopped(); i++ {
+			time.Sleep(time.Second)
+		}
+		if !stopped() {
+			fail("the sequencer did not return within 40 s (virtual) of its context being cancelled")
+		}
 		quiesce("long after stop")
 		if verr != nil {
 			return
@@ -418,6 +456,15 @@ func c17Run(t *testing.T, plan c17Plan, dir string, st map[string]int, desc *[]s
 		for _, e := range leaves {
 			se := &simEntry{P: &PendingLogEntry{Certificate: e.Cert, IsPrecert: e.IsPrecert, IssuerKeyHash: e.IssuerKeyHash}}
 			inTree[se.dedupKey()]++
+		}
+		if plan.ReadOnly > 0 && plan.FreezeAt == 0 {
+			// no sequencing round may begin once the log is read-only: a tree head's timestamp is taken when its round begins
+			ro := start.Add(time.Duration(plan.ReadOnly)*time.Millisecond + 10*time.Millisecond).UnixMilli()
+			for _, c := range s.commits {
+				if c.Time >= ro {
+					fail("a checkpoint (size %d) was signed with timestamp %d, at or after the instant %d at which the log became read-only: a sequencing round began on a read-only log", c.Size, c.Time, ro)
+				}
+			}
 		}
 		prev := int64(0)
 		for _, c := range s.commits {
@@ -506,6 +553,9 @@ func TestVerifC17Admission(t *testing.T) {
 			rec.Add(k, int64(st[k]))
 		}
 		cls = append(cls, fmt.Sprintf("poolSize=%d", plan.PoolSize))
+		if plan.Slow > 0 {
+			cls = append(cls, "slow-operation-in-a-round")
+		}
 		if plan.FreezeAt > 0 {
 			cls = append(cls, "clock-stall-or-step-back")
 			if st["stops"] > 0 {
